@@ -11,6 +11,7 @@ from typing import Any, Callable, Optional
 import z3
 
 from . import extract, smt
+from .symexec import _Break as _BreakExc, _Continue as _ContinueExc
 from .symexec import (Box, Builtin, ClassVal, Env, ExcVal, FuncVal, Interp, Obj, PDict, PList, Path, PathEnd,
                       PyRaise, SDict, SSeq, SSet, UninterpFn, Unsupported, _MISSING, _Return, to_z3, is_z3)
 
@@ -265,7 +266,7 @@ class Harness:
         return SDict((dom, val))
 
     def seq(self, name, elem_sort=None, pytype='list'):
-        sort = z3.SeqSort(elem_sort or z3.IntSort())
+        sort = z3.SeqSort(elem_sort if elem_sort is not None else z3.IntSort())
         return SSeq(self._reg(name, z3.Const(name, sort)), pytype)
 
     def bytes(self, name, pytype='bytes'):
@@ -275,11 +276,18 @@ class Harness:
                                                      z3.And(s.expr[i] >= 0, s.expr[i] <= 255))))
         return s
 
-    def arr(self, name, length, pytype='array'):
-        """A byte buffer (array('B') / bytearray / memoryview) of the given (symbolic) length."""
+    def arr(self, name, length, pytype='array', ints=False):
+        """A byte buffer (array('B') / bytearray / memoryview) of the given (symbolic) length; elements are
+        64-bit vectors (for bit manipulation) or, with ints=True, mathematical integers in 0..255."""
         from .arrays import SArr, BV
-        a = self._reg(name, z3.Array(name, z3.IntSort(), BV))
+        a = self._reg(name, z3.Array(name, z3.IntSort(), z3.IntSort() if ints else BV))
         return SArr(a, to_z3(length), pytype)
+
+    def list_arr(self, name, length, elem_sort=None):
+        """A Python list of symbolic length as (array, length): better suited to quantified invariants than Seq."""
+        from .arrays import SArr
+        a = self._reg(name, z3.Array(name, z3.IntSort(), elem_sort if elem_sort is not None else z3.IntSort()))
+        return SArr(a, to_z3(length), 'list')
 
     def byte(self, name):
         v = self.bv(name)
@@ -560,7 +568,13 @@ def run_lemma(I: Interp, c: 'Lemma', spec: dict, label: str, path: Path) -> None
                     else:
                         if not I.decide(I.eval(loop.test, env)):
                             raise PathEnd()
-                    I.exec_block(loop.body, env)
+                    try:
+                        I.exec_block(loop.body, env)
+                        vals['exit_kind'] = 'normal'
+                    except _BreakExc:
+                        vals['exit_kind'] = 'break'
+                    except _ContinueExc:
+                        vals['exit_kind'] = 'continue'
                 finally:
                     I.depth -= 1
                     I.current_fn.pop()
@@ -573,9 +587,13 @@ def run_lemma(I: Interp, c: 'Lemma', spec: dict, label: str, path: Path) -> None
                         note=f'{exc.typ} raised at line {exc.lineno}')
         return
     path.cover(f'{label}.end_reachable', 0)
-    allv = dict(vals)
-    allv.update(I.ghost)
+    allv = dict(I.ghost)
+    allv.update(vals)
     for e in c.ensures_:
+        if any(p not in allv for p in e.params):
+            # a clause about a local that does not exist on this path (e.g. after an early break) is not
+            # applicable here; the lock file guarantees that every clause is generated on some path
+            continue
         goal = to_z3(I.truth(e.call(I, allv, I.entry_view)))
         path.oblige(f'{label}.ensures.{e.name}', goal, e.line)
 
